@@ -150,9 +150,9 @@ PROPS = {
             "name, and subquery columns are numbered among the visible targets (R-VISFILTER); `*` expands to names "
             "that are columns of the table, for all 10 tables (R-WILDCARD); the expression text is text[pos:endpos] of "
             "the node's own parse info (R-NAMESLICE); projection to visible indexes (R-PIPELINE). Does not decide that "
-            "the slice equals the expression's text for arbitrary spacing (positions come from TatSu at run time). execute_query returns what execute_select returned (R-QUERYEXEC) and every accepting path of _compile_select returns the EvalQuery built there over this statement's own compiled targets (R-SELECTNODE): there is no second place where a description is made, and no path on which the names of another SELECT are published. The target rule of the grammar is `expression [AS identifier]`: an alias is an identifier, so no visible column can have an empty or otherwise falsy name (R-CLAUSELANG on the target and select rules). cursor.description after execute() is the description execute_query returned, whatever it is - the empty tuple of a result without columns included (R-RESET). A target that repeats an earlier one in another spelling is named by its own source text (R-HIDDEN name-source with tree-equal targets)."),
+            "the slice equals the expression's text for arbitrary spacing (positions come from TatSu at run time). execute_query returns what execute_select returned (R-QUERYEXEC) and every accepting path of _compile_select returns the EvalQuery built there over this statement's own compiled targets (R-SELECTNODE): there is no second place where a description is made, and no path on which the names of another SELECT are published. The target rule of the grammar is `expression [AS identifier]`: an alias is an identifier, so no visible column can have an empty or otherwise falsy name (R-CLAUSELANG on the target and select rules). cursor.description after execute() is the description execute_query returned, whatever it is - the empty tuple of a result without columns included (R-RESET). A target that repeats an earlier one in another spelling is named by its own source text (R-HIDDEN name-source with tree-equal targets). `*` over a FROM-subquery expands to every visible target of the subquery, in order, whatever the names look like - expression texts such as `sum(x)` included (R-SUBQNAMES; repeated names: known finding D30)."),
         'assumptions': TRUSTED_STRUCT,
-        'quick': [cr.rule_hidden, cr.rule_visfilter, cr.rule_wildcard, cr.rule_nameslice, sxs.rule_pipeline, sxs.rule_queryexec, sxp.rule_selectnode, gr.rule_clauselang_target, sxc.rule_reset],
+        'quick': [cr.rule_hidden, cr.rule_visfilter, cr.rule_wildcard, cr.rule_nameslice, sxs.rule_pipeline, sxs.rule_queryexec, sxp.rule_selectnode, gr.rule_clauselang_target, sxc.rule_reset, cr.rule_subqnames],
         'thorough': [],
     },
     'C08': {
@@ -355,7 +355,7 @@ PROPS = {
             "dot-commands never reach execute(), other lines do unless legacy, legacy names disjoint from statement "
             "keywords (R-DISPATCH); default close date for named queries (R-DEFAULTCLOSE); statement handlers exhaustive "
             "(R-EXHAUSTIVE). Does not decide byte equality of shell output with the renderer (the same function is "
-            "called), pager behaviour or history. _parse_format returns the very value whose membership in FORMATS it tested; parse() builds a new tree per call (R-PARSEFRESH): the shell writes the default CLOSE date into the tree it parsed. On terms: Settings.setstr for every setting x current value (the value goes through the setting's own parser, else its type's parser, else the type; exactly that setting is stored once with the parsed value; nothing is stored when the parser rejects), _parse_bool returns a bool on every path and reads back the spellings .set echoes, main -> BQLShell.__init__ -> do_reload carry every option (the error report is printed iff there are errors and -q was not given). BQLShell.on_Select hands the (numberified iff the setting is on) result of the connection, once, to FORMATS[settings.format] with the shell output, the ledger display context and all settings and prints nothing itself, for empty and non-empty results; on_Journal / on_Balances delegate to it; the text and csv plug-ins forward everything to render_text / render_csv, `(empty)` being the text format's rendering of an empty result (R-SELECTOUT). `.set` takes its words from shlex.split(arg) with the default rules. The dispatcher is interpreted on terms over dot prefix x command defined x legacy name. parseline on concrete command words: exactly one leading dot is the prefix (R-CMDWORD); _extract_queries rebuilds the registry of named queries from the entries just loaded, first directive of a name wins (R-QUERYREG). Settings.todict() either returns a new mapping or, if it returns the live attribute dictionary, no handler changes it (R-SELECTOUT settings-mutated). `with self.output as out` yields a file that stays open: for redirected output nullcontext(self.outfile), for the terminal a pager or the flushing wrapper, never the bare file object (R-OUTPUT, 4 cases). PRINT typed in the shell is execute_print(connection.compile(statement), the shell's output file), once, with nothing else written (R-PRINTOUT). An exception escaping a statement is reported and the command loop is entered again (R-CMDLOOP): what one statement does never decides whether the next one is read. When onecmd tests the first word against no fixed set of legacy names, no line without the dot prefix may be run as a command (R-DISPATCH bare:open)."),
+            "called), pager behaviour or history. _parse_format returns the very value whose membership in FORMATS it tested; parse() builds a new tree per call (R-PARSEFRESH): the shell writes the default CLOSE date into the tree it parsed. On terms: Settings.setstr for every setting x current value (the value goes through the setting's own parser, else its type's parser, else the type; exactly that setting is stored once with the parsed value; nothing is stored when the parser rejects), _parse_bool returns a bool on every path and reads back the spellings .set echoes, main -> BQLShell.__init__ -> do_reload carry every option (the error report is printed iff there are errors and -q was not given). BQLShell.on_Select hands the (numberified iff the setting is on) result of the connection, once, to FORMATS[settings.format] with the shell output, the ledger display context and all settings and prints nothing itself, for empty and non-empty results; on_Journal / on_Balances delegate to it; the text and csv plug-ins forward everything to render_text / render_csv, `(empty)` being the text format's rendering of an empty result (R-SELECTOUT). `.set` takes its words from shlex.split(arg) with the default rules. The dispatcher is interpreted on terms over dot prefix x command defined x legacy name. parseline on concrete command words: exactly one leading dot is the prefix (R-CMDWORD); _extract_queries rebuilds the registry of named queries from the entries just loaded, first directive of a name wins (R-QUERYREG). Settings.todict() either returns a new mapping or, if it returns the live attribute dictionary, no handler changes it (R-SELECTOUT settings-mutated). `with self.output as out` yields a file that stays open: for redirected output nullcontext(self.outfile), for the terminal a pager or the flushing wrapper, never the bare file object (R-OUTPUT, 4 cases). PRINT typed in the shell is execute_print(connection.compile(statement), the shell's output file), once, with nothing else written (R-PRINTOUT). An exception escaping a statement is reported and the command loop is entered again (R-CMDLOOP): what one statement does never decides whether the next one is read. When onecmd tests the first word against no fixed set of legacy names, no line without the dot prefix may be run as a command (R-DISPATCH bare:open). A string setting is echoed as its Python literal, repr(value) (R-SETTINGS echo-string); `.run NAME ;`, `.run *;` and a lone `;` behave as without the semicolon (R-DEFAULTCLOSE run)."),
         'assumptions': TRUSTED_STRUCT,
         'quick': [cl.rule_settings, sxsh.rule_optused, sxsh.rule_selectout, cl.rule_dispatch, sxsh.rule_cmdword, sxsh.rule_queryreg, sxst.rule_defaultclose, cr.rule_exhaustive, st.rule_parsefresh, sxsh.rule_output, sxsh.rule_printout, sxsh.rule_cmdloop],
         'thorough': [],
